@@ -5,9 +5,9 @@ CHECK_DEADLOCK FALSE
 ALIAS Compact
 INVARIANTS
   C11_SenderUndisturbed_KF
-  C11_Fits
+  C11_Fits_KF
   C11_Homogeneous
   C11_OversizeSkipped_KF
   C11_EffectNearLimit_KF
   C11_EorKept
-  C11_Effect
+  C11_Effect_KF
